@@ -209,18 +209,26 @@ Definition batch_process (fail : Z) (dup : bool) (errsym : Z) (idx : nat) (ch : 
   if j =? fail then RErr (kind_of errsym) j
   else ROk (flat_map (fun x => let v := x * 100 + j in if dup then [v; v] else [v]) ch).
 
-(* reference: chunk j is items[j*s, (j+1)*s) with s = max size 1; the chunks handed over are
-   0..fail (all if none fails); the result is the error of chunk `fail` or every item's image *)
-Definition ref_batch (n size fail : Z) (dup : bool) (errsym : Z) : list (list Z) * cres :=
+(* property instance, judged on the OBSERVED hand-over (the property does not fix the chunk
+   boundaries): every chunk handed over is non-empty and no longer than max(size,1); their
+   concatenation is a prefix of the items, in order, each once; the processor's call number
+   `fail` - if it happened - is the LAST call and its error is the result; otherwise every item
+   was handed over and the result is the concatenation of what the processor returned *)
+Definition zlen {A} (l : list A) : Z := Z.of_nat (List.length l).
+Definition prop_batch (n size fail : Z) (dup : bool) (errsym : Z) (tr : list (list Z)) (r : cres)
+  : bool :=
   let s := Z.max size 1 in
-  let nchunks := (n + s - 1) / s in
-  let failing := (0 <=? fail) && (fail <? nchunks) in
-  let handed := if failing then fail + 1 else nchunks in
-  let chunk j := filter (fun x => (j * s <=? x) && (x <? (j + 1) * s)) (zrange n) in
-  (map chunk (zrange handed),
-   if failing then CRErr (kind_code (kind_of errsym)) fail
-   else CROk (flat_map (fun x => let v := x * 100 + x / s in if dup then [v; v] else [v])
-                       (zrange n))).
+  let handed := List.concat tr in
+  let nch := zlen tr in
+  forallb (fun ch => (1 <=? zlen ch) && (zlen ch <=? s)) tr
+  && zlist_eqb handed (zrange (zlen handed)) && (zlen handed <=? n)
+  && (if (0 <=? fail) && (fail <? nch)
+      then (nch =? fail + 1) && cres_eqb r (CRErr (kind_code (kind_of errsym)) fail)
+      else (zlen handed =? n)
+           && cres_eqb r (CROk (flat_map (fun p => let j := Z.of_nat (fst p) in
+                                           flat_map (fun x => let v := x * 100 + j in
+                                                              if dup then [v; v] else [v]) (snd p))
+                                         (combine (seq 0 (List.length tr)) tr)))).
 
 Definition dec_trace (j : J) : option (list (list Z)) :=
   match j with JL l => omap jints l | _ => None end.
@@ -263,12 +271,6 @@ Definition ref_page (ps : Z) (mp : option Z) (script : list pg) (tail : pg) (bou
   end.
 
 (* ---------- timing ---------- *)
-(* nsum is Cloud.Ops.nsum *)
-Definition ref_sleeps (initial cap : Z) (ge2 : bool) (a : nat) : list Z :=
-  map (fun j => if j =? 0 then initial
-                else Z.min cap (if ge2 then initial * 2 ^ j else initial))
-      (zrange (Z.of_nat a - 1)).
-
 Fixpoint lead_ok (l : list Z) : nat :=
   match l with x :: r => if x =? 0 then S (lead_ok r) else O | [] => O end.
 
@@ -388,9 +390,8 @@ Definition check_batch (input output : J) : verdict :=
               let process := batch_process fail dup errsym in
               let '(mr, mtr) := if api =? 0 then batch_in_chunks items sz process
                                 else run_batch_operation items sz par process in
-              let '(rtr, rr) := ref_batch n size fail dup errsym in
               ok_verdict (zll_eqb tr mtr && cres_eqb r (cres_of_res mr))
-                         (zll_eqb tr rtr && cres_eqb r rr)
+                         (prop_batch n size fail dup errsym tr r)
           | _, _ => bad_out output
           end
       | _ => bad_out output
@@ -555,10 +556,13 @@ Definition check_timing (input output : J) : verdict :=
           let a := Nat.min (N.to_nat (N.max 1 (Z.to_N b))) (S (Z.to_nat nfail)) in
           let rcode := if Z.of_nat a <=? nfail then [Z.of_nat a; 1; Z.of_nat a]
                        else [Z.of_nat a; 0; Z.of_nat a] in
-          let rlo := 1000 * fold_right Z.add 0 (ref_sleeps initial cap ge2 a) in
+          (* the property bounds the waits from above only: the first by max(initial, cap) (it
+             is left open whether the cap applies to it), every later one by the cap *)
+          let rub := if (a <=? 1)%nat then 0
+                     else 1000 * (Z.max initial cap + (Z.of_nat a - 2) * cap) in
           ok_verdict
             (zlist_eqb [calls; cls; org] (code_of_run r) && (lo <=? us) && (us <? lo + slack))
-            (zlist_eqb [calls; cls; org] rcode && (rlo <=? us) && (us <? rlo + slack))
+            (zlist_eqb [calls; cls; org] rcode && (0 <=? us) && (us <? rub + slack))
       | _ => bad_out output
       end
   | _ => malformed
@@ -575,8 +579,10 @@ Definition check_timing (input output : J) : verdict :=
    busy_i ms, extra = 1 ns (the closure lets the clock tick).  agree = code equal, as many gaps as
    the model has sleeps, gap j in [sleep_j, sleep_j + slack), total in [clock, clock + slack *
    (1 + gaps + calls)).
-   REFERENCE: attempts a from the script (ref_retry), waits from the closed form (ref_sleeps),
-   Timeout iff the result is Ok and timeout_ms <= waits + time inside the calls.
+   PROPERTY (prop_wait): attempts and returned outcome from the script (ref_retry); one wait per
+   retry, the first <= max(initial, cap), the later ones <= cap (+ slack) - no lower bounds, the
+   first wait is left open by the property text; a success under a timeout only if observed
+   waits + time inside the calls <= timeout, a Timeout for a success only if total >= timeout.
    A timeout is USABLE for a wrapper when it is <= the derived clock (the real clock is strictly
    later: overrun for sure) or at least 300 ms above it (certainly in time); a case with an
    unusable timeout is malformed (the generator must not produce it) - decided from the model
@@ -635,23 +641,30 @@ Fixpoint io_gaps (tr : list Z) (sleeps : list N) : list (option Z) :=
   | _ => match sleeps with [] => [] | _ => [Some (-1)] end
   end.
 
-Fixpoint ref_io_gaps (b : N) (ini cap : Z) (ge2 : bool) (s : list Z) (items : list Z) (from : nat)
+(* upper bounds (ms) the property puts on the gaps of the per-item batch: per started item with
+   a attempts, max(initial, cap) for its first wait and cap for each later one; None = the gap
+   between two items, about which the property says nothing *)
+Fixpoint ref_io_bounds (b : N) (ini cap : Z) (s : list Z) (items : list Z) (from : nat)
   : list (option Z) :=
   match items with
   | [] => []
   | x :: rest =>
       let '(a, sym) := ref_retry b s from in
-      map Some (ref_sleeps ini cap ge2 a)
+      (match a with
+       | O | S O => []
+       | S (S k) => Some (Z.max ini cap) :: repeat (Some cap) k
+       end)
       ++ (if sym =? 0
-          then match rest with [] => [] | _ => None :: ref_io_gaps b ini cap ge2 s rest (from + a)%nat end
+          then match rest with [] => [] | _ => None :: ref_io_bounds b ini cap s rest (from + a)%nat end
           else [])
   end.
-Fixpoint ref_io_calls (b : N) (s : list Z) (items : list Z) (from : nat) : nat :=
-  match items with
-  | [] => O
-  | x :: rest =>
-      let '(a, sym) := ref_retry b s from in
-      if sym =? 0 then (a + ref_io_calls b s rest (from + a))%nat else a
+Fixpoint bounds_ok (ub : list (option Z)) (obs : list Z) (slack : Z) : bool :=
+  match ub, obs with
+  | [], [] => true
+  | u :: ub', g :: obs' =>
+      (0 <=? g) && (match u with Some ms => g <? 1000 * ms + slack | None => true end)
+      && bounds_ok ub' obs' slack
+  | _, _ => false
   end.
 
 (* model side of one wrapper: (usable, code, gaps, clock in us, calls) *)
@@ -688,26 +701,33 @@ Definition model_wait (w : Z) (c : retry_cfg) (t_ms : Z) (s busy : list Z)
   | _ => (false, [-3], [], 0, O)
   end.
 
-(* reference side of one wrapper: (code, gaps, least total in us, calls) *)
-Definition ref_wait (w : Z) (rc : Z * Z * bool * Z) (t_ms : Z) (s busy : list Z)
-  : list Z * list (option Z) * Z * nat :=
-  let '(ini, cap, ge2, b) := rc in
+(* property instance of one wrapper, judged on the OBSERVATION (code, total_us, gaps_us):
+   - attempts and returned outcome: a = min(max(1,budget), 1 + leading transient outcomes), the
+     caller gets attempt a's outcome - or, under a timeout, Timeout in place of a success;
+   - waits: one per retry; the first at most max(initial, cap), every later one at most cap
+     (+ slack); the property gives no lower bound and does not fix the first wait;
+   - timeout: a success may be reported only if the time KNOWN to have passed inside (observed
+     waits + time inside the calls) does not exceed the timeout; a Timeout in place of a success
+     only if the whole call took at least the timeout. *)
+Definition prop_wait (w : Z) (rc : Z * Z * bool * Z) (t_ms : Z) (s busy : list Z)
+           (code : list Z) (total : Z) (gaps : list Z) (slack : Z) : bool :=
+  let '(ini, cap, _, b) := rc in
   let bn := Z.to_N b in
   let busy_to n := zsum (map (fun i => nth i busy 0) (seq 0 n)) in
   if w =? 9 then
-    let calls := ref_io_calls bn s [1; 2; 3] 0 in
-    let gaps := ref_io_gaps bn ini cap ge2 s [1; 2; 3] 0 in
-    (ref_io bn s [1; 2; 3] 0 [] [], gaps,
-     1000 * (zsum (map (fun g => match g with Some ms => ms | None => 0 end) gaps) + busy_to calls),
-     calls)
+    zlist_eqb code (ref_io bn s [1; 2; 3] 0 [] [])
+    && bounds_ok (ref_io_bounds bn ini cap s [1; 2; 3] 0) gaps slack
   else
     let '(a, sym) := if has_retry w then ref_retry bn s 0 else (1%nat, nth 0 s 0) in
-    let waits := if has_retry w then ref_sleeps ini cap ge2 a else [] in
-    let lo := zsum waits + busy_to a in
     let timed := has_timeout w || (w =? 14) in
-    ((if (sym =? 0) && timed && (t_ms <=? lo) then [Z.of_nat a; 2; 0]
-      else [Z.of_nat a; sym; Z.of_nat a]),
-     map Some waits, 1000 * lo, a).
+    let ub := match a with
+              | O | S O => []
+              | S (S k) => Some (Z.max ini cap) :: repeat (Some cap) k
+              end in
+    bounds_ok ub gaps slack
+    && (if zlist_eqb code [Z.of_nat a; sym; Z.of_nat a]
+        then negb ((sym =? 0) && timed) || (zsum gaps + 1000 * busy_to a <=? 1000 * t_ms)
+        else zlist_eqb code [Z.of_nat a; 2; 0] && (sym =? 0) && timed && (1000 * t_ms <=? total)).
 
 Definition judge_wait_obs (code : list Z) (total : Z) (gaps : list Z) (slack : Z)
            (ecode : list Z) (egaps : list (option Z)) (elo : Z) (ecalls : nat) : bool :=
@@ -725,10 +745,9 @@ Fixpoint judge_waits (ws : list Z) (obs : list J) (c : retry_cfg) (rc : Z * Z * 
       | Some code, Some gaps, Some (u, a, p) =>
           let t := if w <? 10 then t_retry else t_single in
           let '(mu, mcode, mgaps, mlo, mcalls) := model_wait w c t s busy in
-          let '(rcode, rgaps, rlo, rcalls) := ref_wait w rc t s busy in
           Some (mu && u,
                 (w =? w') && judge_wait_obs code total gaps slack mcode mgaps mlo mcalls && a,
-                (w =? w') && judge_wait_obs code total gaps slack rcode rgaps rlo rcalls && p)
+                (w =? w') && prop_wait w rc t s busy code total gaps slack && p)
       | _, _, _ => None
       end
   | _, _ => None
@@ -799,9 +818,8 @@ Fixpoint judge_bwaits (k : nat) (obs : list J) (ss : list setter) (jss : list J)
                     | _ => (0, 0, true, 1)
                     end in
           let t_ms := match lastt with Some (JL [_; JI t]) => t | _ => 0 end in
-          let '(rcode, rgaps, rlo, rcalls) := ref_wait w rc t_ms s busy in
           Some (judge_wait_obs code total gaps slack (code_of_run r) mgaps mlo (run_calls r) && a,
-                judge_wait_obs code total gaps slack rcode rgaps rlo rcalls && p)
+                prop_wait w rc t_ms s busy code total gaps slack && p)
       | _, _, _ => None
       end
   | _ => None
